@@ -508,28 +508,52 @@ type ReplayFile struct {
 	Note      string      `json:"note,omitempty"`
 }
 
-// oneShot runs a single replay request in a fresh worker process. It returns
-// the result (nil if the worker died), stderr and exit code.
-func oneShot(e Engine, opt *Options, req *Request) (*Response, string, int, []byte) {
-	p, err := startProc(opt)
-	if err != nil {
-		return nil, err.Error(), -1, nil
+// replayer runs replay requests, either each in a fresh worker process
+// (fresh=true: used for confirmations) or in one persistent worker that is
+// restarted when it dies (used while shrinking).
+type replayer struct {
+	opt   *Options
+	fresh bool
+	p     *proc
+}
+
+func (r *replayer) close() {
+	if r.p != nil {
+		r.p.stop()
+		r.p = nil
 	}
+}
+
+// do returns the response, or nil plus stderr, exit code and in-flight
+// payload if the worker died.
+func (r *replayer) do(req *Request) (*Response, string, int, []byte) {
+	if r.p == nil {
+		p, err := startProc(r.opt)
+		if err != nil {
+			return nil, err.Error(), -1, nil
+		}
+		r.p = p
+	}
+	p := r.p
 	resp, err := p.call(req, watchdog)
 	if err != nil {
 		_, payload := p.inflight.read()
 		code := p.reap()
+		r.p = nil
 		return nil, p.stderr.String(), code, payload
 	}
-	p.stop()
+	if r.fresh {
+		r.close()
+	}
 	return resp, "", 0, nil
 }
 
 // reproduces reports whether replaying tr shows a violation with signature
 // sig; it returns the re-recorded trace and scenario.
-func reproduces(e Engine, opt *Options, c *violCase, tr vs.Trace, strict bool, payload []byte) (bool, vs.Trace, interface{}, string) {
+func reproduces(e Engine, rp *replayer, c *violCase, tr vs.Trace, strict bool) (bool, vs.Trace, interface{}, string) {
+	opt := rp.opt
 	req := &Request{Kind: "replay", Tier: opt.Tier, Idx: c.idx, Seed: c.seed, Trace: tr, Strict: strict}
-	resp, stderr, code, pl := oneShot(e, opt, req)
+	resp, stderr, code, pl := rp.do(req)
 	if resp == nil {
 		v := Violation{Class: "process-abort", Sig: "process-abort", Detail: tail(stderr, 4000)}
 		if dc, ok := e.(DeathClassifier); ok {
@@ -551,8 +575,11 @@ func reproduces(e Engine, opt *Options, c *violCase, tr vs.Trace, strict bool, p
 func processViolation(e Engine, opt *Options, c *violCase) (string, string) {
 	rf := &ReplayFile{Property: e.ID(), Tier: opt.Tier, BatchSeed: opt.Seed, Idx: c.idx, Seed: c.seed, TreeHash: opt.TreeHash, Violation: c.v, Death: c.death}
 	tr := c.trace
+	fresh := &replayer{opt: opt, fresh: true}
+	persistent := &replayer{opt: opt}
+	defer persistent.close()
 	// 1. confirm from the seed alone (trace nil => generate) in a fresh process.
-	ok, tr2, sample, detail := reproduces(e, opt, c, nil, false, nil)
+	ok, tr2, sample, detail := reproduces(e, fresh, c, nil, false)
 	if !ok {
 		return "", "not reproduced from seed in a fresh process"
 	}
@@ -570,7 +597,7 @@ func processViolation(e Engine, opt *Options, c *violCase) (string, string) {
 		best, bestSample, bestDetail := tr, sample, rf.Violation.Detail
 		best = Shrink(best, func(cand vs.Trace) (bool, vs.Trace) {
 			attempts++
-			ok, canon, smp, det := reproduces(e, opt, c, cand, false, nil)
+			ok, canon, smp, det := reproduces(e, persistent, c, cand, false)
 			if ok && canon != nil {
 				bestSample, bestDetail = smp, det
 				return true, canon
@@ -589,13 +616,13 @@ func processViolation(e Engine, opt *Options, c *violCase) (string, string) {
 	// 3. the minimised trace must reproduce, strictly, in two fresh processes.
 	if tr != nil {
 		for i := 0; i < 2; i++ {
-			ok, _, _, why := reproduces(e, opt, c, tr, true, nil)
+			ok, _, _, why := reproduces(e, fresh, c, tr, true)
 			if !ok {
 				return "", "minimised trace did not replay strictly: " + why
 			}
 		}
 	} else {
-		ok, _, _, _ := reproduces(e, opt, c, nil, false, nil)
+		ok, _, _, _ := reproduces(e, fresh, c, nil, false)
 		if !ok {
 			return "", "second replay from seed failed"
 		}
@@ -637,7 +664,7 @@ func replayMain(e Engine, args []string) int {
 	}
 	opt.Tier = rf.Tier
 	c := &violCase{idx: rf.Idx, seed: rf.Seed, v: rf.Violation, death: rf.Death}
-	ok, _, _, detail := reproduces(e, &opt, c, rf.Trace, rf.Trace != nil, nil)
+	ok, _, _, detail := reproduces(e, &replayer{opt: &opt, fresh: true}, c, rf.Trace, rf.Trace != nil)
 	if ok {
 		fmt.Printf("replayed: %s\n%s\n", rf.Violation.Sig, tail(detail, 4000))
 		fmt.Printf("VIOLATION property=%s replay=%s\n", e.ID(), file)
